@@ -85,6 +85,11 @@ def run_case(cs):
     if rng.random() < 0.5:
         with open(os.path.join(root, "added.bin"), "wb") as f:
             f.write(b"new" + rng.randbytes(3))
+    if rng.random() < 0.3:
+        for h in world.find_histories(root):
+            with open(os.path.join(hist.asc_dir(root, h), "ascmhl_chain.xml.tmp"), "wb") as f:
+                f.write(b'<?xml version="1.0"?>\n<ascmhldirectory>\n' + b"  <stale entry of an interrupted run/>\n" * 400)
+        cs.count("scenarios_with_stale_chain_tmp")
     world.set_mtimes(root, fixed=NOW - 5000)
     os.rename(work, state)
     clock.freeze(NOW)
